@@ -367,6 +367,12 @@ func isUserEntry(f *ssa.Function) bool {
 
 func ruleA25(r *Run, p *Prog) {
 	a := &a25{r: r, p: p}
+	type a25target struct {
+		f *ssa.Function
+		c *ssa.Call
+	}
+	var targets []a25target
+	cmf := p.Global("", "CallerMarshalFunc")
 	// target: the module function that calls runtime.Caller with a non-constant operand on an Event
 	for _, f := range p.ModFns {
 		if pkgRel(f) != "" {
@@ -376,6 +382,12 @@ func ruleA25(r *Run, p *Prog) {
 			if c, ok := in.(*ssa.Call); ok && isCallTo(&c.Call, "runtime.Caller") {
 				if f.Signature.Recv() != nil && typeIs(f.Signature.Recv().Type(), modPath, "Event") {
 					a.target, a.rcCall = f, c
+				}
+				// every stack lookup of the package is judged (a hook that looks the frame up itself too)
+				// (a lookup whose result is rendered with CallerMarshalFunc, i.e. a caller field; TestWriter's
+				// own frame lookup for testing.TB is not one)
+				if _, isConst := c.Call.Args[0].(*ssa.Const); !isConst && cmf != nil && refersToGlobal(f, cmf) {
+					targets = append(targets, a25target{f, c})
 				}
 			}
 		})
@@ -463,6 +475,71 @@ func ruleA25(r *Run, p *Prog) {
 			r.Ob("A25", FnName(f)+"/hook-leaves-skipFrame", p.Pos(f.Pos()), bad == "", true, tern(bad == "", "the hook does not modify Event.skipFrame", "the hook changes Event.skipFrame (through "+bad+"): the event is shared by all hooks of the logger, so every later caller hook (and Event.Caller in a later hook) is off by that amount"))
 		}
 	}
+	// The skip adjustment belongs to the event's whole remaining life (every later caller field
+	// adds it): inside the module it may therefore only be applied to an event the applying
+	// function has just created (the Print family, package log), never to an event handed in by
+	// the user — a field method such as Event.Caller(k) that left k behind would shift the caller
+	// hook and every later Caller() on that event.
+	{
+		writes := map[*ssa.Function]bool{}
+		for _, f := range p.ModFns {
+			eachInstr(f, func(b *ssa.BasicBlock, i int, in ssa.Instruction) {
+				if stx, ok := in.(*ssa.Store); ok {
+					if fa, ok := stx.Addr.(*ssa.FieldAddr); ok && fieldVar(fa) == a.skipFr {
+						if n, isC := constInt(stx.Val); !isC || n != 0 {
+							writes[f] = true
+						}
+					}
+				}
+			})
+		}
+		// appliesToParam[f] = index of the parameter whose event f adjusts (directly or through a helper)
+		type site struct {
+			f   *ssa.Function
+			pos token.Pos
+			via string
+		}
+		var bad []site
+		nSites := 0
+		var judge func(g *ssa.Function, pidx int, depth int, via string)
+		judge = func(g *ssa.Function, pidx int, depth int, via string) {
+			// g adjusts the event in its parameter pidx: every in-module caller must pass a fresh event
+			for _, f := range p.ModFns {
+				eachInstr(f, func(b *ssa.BasicBlock, i int, in ssa.Instruction) {
+					cc := callCommon(in)
+					if cc == nil || staticCallee(cc) != g || len(cc.Args) <= pidx {
+						return
+					}
+					nSites++
+					arg := cc.Args[pidx]
+					if par, isPar := arg.(*ssa.Parameter); isPar {
+						k := -1
+						for j, q := range f.Params {
+							if q == par {
+								k = j
+							}
+						}
+						exported := f.Object() != nil && f.Object().Exported()
+						if exported || depth >= 3 || f.Parent() != nil {
+							bad = append(bad, site{f, in.Pos(), via})
+							return
+						}
+						judge(f, k, depth+1, via+" ← "+FnName(f))
+					}
+				})
+			}
+		}
+		for g := range writes {
+			if g.Signature.Recv() != nil {
+				judge(g, 0, 0, FnName(g))
+			}
+		}
+		sort.Slice(bad, func(i, j int) bool { return FnName(bad[i].f) < FnName(bad[j].f) })
+		for _, b := range bad {
+			r.Ob("A25", FnName(b.f)+"/skip-only-on-fresh-events", p.Pos(b.pos), false, true, FnName(b.f)+" changes Event.skipFrame of an event it was handed (through "+b.via+"): the adjustment outlives the call, so the caller hook and every later Caller() on that event are reported that many frames too high")
+		}
+		r.Ob("A25", "skipFrame/skip-only-on-fresh-events", "-", len(bad) == 0 && nSites > 0, true, fmt.Sprintf("%d in-module call sites adjust Event.skipFrame; each applies it to an event created in the same function (or hands it to such a caller)", nSites))
+	}
 	// enumerate chains backwards through the VTA call graph
 	cg := p.CG()
 	var chains [][]a25frame
@@ -504,18 +581,25 @@ func ruleA25(r *Run, p *Prog) {
 			walk(cf, nt, depth+1)
 		}
 	}
-	walk(a.target, []a25frame{{a.target, nil}}, 0)
-	sort.Slice(chains, func(i, j int) bool { return chainString(chains[i]) < chainString(chains[j]) })
+	sort.Slice(targets, func(i, j int) bool { return FnName(targets[i].f) < FnName(targets[j].f) })
 	dup := map[string]int{}
 	a.usesGlobal = map[string]bool{}
 	var order []string
-	for _, ch := range chains {
-		k := chainString(ch)
-		if dup[k] == 0 {
-			order = append(order, k)
+	nChains := 0
+	for _, tg := range targets {
+		chains = nil
+		a.rcCall = tg.c
+		walk(tg.f, []a25frame{{tg.f, nil}}, 0)
+		sort.Slice(chains, func(i, j int) bool { return chainString(chains[i]) < chainString(chains[j]) })
+		for _, ch := range chains {
+			k := chainString(ch)
+			if dup[k] == 0 {
+				order = append(order, k)
+			}
+			dup[k]++
+			a.checkChain(ch, dup[k])
 		}
-		dup[k]++
-		a.checkChain(ch, dup[k])
+		nChains += len(chains)
 	}
 	// the documented global knob must be read at event time on every entry chain (Caller() without
 	// an explicit count follows CallerSkipFrameCount)
@@ -523,7 +607,7 @@ func ruleA25(r *Run, p *Prog) {
 		ok := a.usesGlobal[k]
 		r.Ob("A25", k+"/reads-global", "-", ok, true, tern(ok, "some arm of this chain reads CallerSkipFrameCount when the event is finalised", "no arm of this chain reads the global CallerSkipFrameCount at event time: changing the documented knob no longer moves the site reported through this entry point"))
 	}
-	r.Count("a25_chains", len(chains))
+	r.Count("a25_chains", nChains)
 	r.Count("a25_paths", a.nPaths)
 }
 
@@ -597,4 +681,16 @@ func (a *a25) checkChain(ch []a25frame, arm int) {
 		}
 		r.Ob("A25", cons, pos, ok, true, msg)
 	}
+}
+
+func refersToGlobal(f *ssa.Function, g *ssa.Global) bool {
+	found := false
+	eachInstr(f, func(b *ssa.BasicBlock, i int, in ssa.Instruction) {
+		for _, op := range in.Operands(nil) {
+			if op != nil && *op == ssa.Value(g) {
+				found = true
+			}
+		}
+	})
+	return found
 }
